@@ -162,10 +162,17 @@ class G:
         sql = ""
         if r.random() < 0.4:
             sql += " order by " + ", ".join(self.expr(1) + r.choice(["", " asc", " desc"]) for _ in range(r.randint(1, 2)))
-        if r.random() < 0.3:
+        x = r.random()
+        if x < 0.3:
             sql += " limit %d" % r.randint(1, 99)
             if r.random() < 0.5:
                 sql += " offset %d" % r.randint(1, 99)
+        elif x < 0.4:
+            if r.random() < 0.5:
+                sql += " offset %d rows" % r.randint(1, 99)
+            sql += " fetch %s %d rows only" % (r.choice(["first", "next"]), r.randint(1, 99))
+        if r.random() < 0.08:
+            sql += " for %s of %s%s" % (r.choice(["update", "share"]), self.ident("t"), r.choice(["", " nowait"]))
         return sql
 
     def query(self, d=1, setop=True):
